@@ -42,6 +42,9 @@ class PID_GK(BasePID):
             The value of I_wedge.
         """
         d = d.coalesce(sources + (target,))
+        # The meet is a property of the support: drop stored zero-probability
+        # outcomes before using the stored outcomes as the sample space.
+        d.make_sparse()
         d = Distribution(d.outcomes, d.pmf, sample_space=d.outcomes)
         d = insert_meet(d, -1, d.rvs[:-1])
         return coinformation(d, [d.rvs[-2], d.rvs[-1]])
